@@ -77,6 +77,45 @@ def visit (fm : FileMap) : Nat → List Nat → Nat → Graph → Except Err Gra
         visitIncs fm (fun c g' => visit fm fuel (f :: stack) c g') stack f tf tf.includes
           { g with verts := g.verts ++ [(f, tf)] }
 
+/-! ### `Reader.firstError`: which error is reported
+
+The includes are read concurrently; when that fails, `Reader.Read` does not return the error
+the concurrent read met first in time but walks over what was recorded for every file read
+— the error of reading it, per include the error of resolving it or the file included —
+depth first, includes in declaration order, and returns the first error.  The records are a
+function of the files (every file is read exactly once, by whichever goroutine reaches it
+first), so the walk is a function of the file map: no schedule appears in it.  `walk` is that
+function; `walk_eq_visit` (ReaderLemmas) proves it reports exactly the error of `visit`. -/
+
+def walkIncs (fm : FileMap) (walk : Nat → List Nat → Except Err (List Nat)) (stack : List Nat)
+    (parent : Nat) : List IncludeDecl → List Nat → Except Err (List Nat)
+  | [], seen => .ok seen
+  | d :: r, seen =>
+    match Store.get d.file fm with
+    | none => if d.optional then walkIncs fm walk stack parent r seen else .error .missing
+    | some _ =>
+      if d.file = parent ∨ d.file ∈ stack then .error .cycle
+      else
+        match (if seen.contains d.file then .ok seen else walk d.file seen) with
+        | .error e => .error e
+        | .ok seen' => walkIncs fm walk stack parent r seen'
+
+def walk (fm : FileMap) : Nat → List Nat → Nat → List Nat → Except Err (List Nat)
+  | 0, _, _, _ => .error .internal
+  | fuel + 1, stack, f, seen =>
+    match Store.get f fm with
+    | none => .error .missing
+    | some tf =>
+      if !tf.wellKeyed then .error .decode
+      else if tf.version = 0 then .error .versionCheck
+      else walkIncs fm (fun c s => walk fm fuel (f :: stack) c s) stack f tf.includes (seen ++ [f])
+
+/-- the error `Reader.Read` reports (none: the tree reads) -/
+def firstError (fm : FileMap) (root : Nat) : Option Err :=
+  match walk fm (fm.length + 1) [] root [] with
+  | .ok _ => none
+  | .error e => some e
+
 /-- `Reader.Read` -/
 def readGraph (fm : FileMap) (root : Nat) : Except Err Graph :=
   visit fm (fm.length + 1) [] root ⟨[], []⟩
